@@ -139,3 +139,13 @@ def near(bounds, q=0.125, big=16.0):
     if not pts:
         return dyadic()
     return st.one_of(st.sampled_from(pts), dyadic())
+
+
+PROP_CARRIERS = ["f64", "f64", "f64", "list_none", "masked_junk", "masked_mixed", "masked_nan", "series"]
+
+
+def with_carrier(case_strategy):
+    """Adds a data carrier (and the junk value hidden under masks) to a per-test case: the per-test properties are then
+    also sensitive to representation-dependent slips inside the function they judge."""
+    return case_strategy.flatmap(lambda c: st.tuples(st.sampled_from(PROP_CARRIERS), st.sampled_from([0.0, 1.0, -9999.0, 1e20, 12.125]))
+                                 .map(lambda cj: {**c, "carrier": cj[0], "junk": cj[1]}))
